@@ -381,6 +381,191 @@ theorem cli_nothing_after_failure (pre : List Node) (r : Node) (post : List Node
 theorem cli_modes_agree (nest0 : Nat) (roots : List Node) :
     run ⟨.newbot, nest0, roots⟩ = run ⟨.legacy, nest0, roots⟩ := rfl
 
+/-! ## What acceptance by the Spec means for an arbitrary observation
+
+The Spec is evaluated on the *implementation's* observations.  Independently of the model: whatever
+log the reader accepts has properly nested testcase events with matching names. -/
+
+/-- Stack discipline on the testcase events: `begin n` pushes `n`, `end n` pops `n`. -/
+inductive BalancedFrom : List Name → List Item → List Name → Prop
+  | nil (stk : List Name) : BalancedFrom stk [] stk
+  | push (n : Name) {stk stk' : List Name} {rest : List Item} :
+      BalancedFrom (n :: stk) rest stk' → BalancedFrom stk (.begin n :: rest) stk'
+  | pop (n : Name) (a b : Bool) {stk stk' : List Name} {rest : List Item} :
+      BalancedFrom stk rest stk' → BalancedFrom (n :: stk) (.end_ n a b :: rest) stk'
+
+/-- With the names `stk` open (innermost first), `l` closes them one after the other, with properly
+    nested stretches in between. -/
+def Closes : List Name → List Item → Prop
+  | [], l => Balanced l
+  | n :: stk, l => ∃ inner a b rest, Balanced inner ∧ l = inner ++ .end_ n a b :: rest ∧ Closes stk rest
+
+theorem closes_of_balancedFrom {stk stk' : List Name} {l : List Item} (h : BalancedFrom stk l stk')
+    (he : stk' = []) : Closes stk l := by
+  induction h with
+  | nil stk => subst he; exact Balanced.nil
+  | @push n stk stk' rest _ ih =>
+    obtain ⟨inner, a, b, rest', hin, hrest, hcl⟩ := ih he
+    subst hrest
+    cases stk with
+    | nil => exact Balanced.call n a b hin hcl
+    | cons m stk2 =>
+      obtain ⟨inner2, a2, b2, rest2, hin2, hrest2, hcl2⟩ := hcl
+      subst hrest2
+      refine ⟨.begin n :: inner ++ .end_ n a b :: inner2, a2, b2, rest2, Balanced.call n a b hin hin2, ?_, hcl2⟩
+      simp
+  | @pop n a b stk stk' rest _ ih =>
+    exact ⟨[], a, b, rest, Balanced.nil, rfl, ih he⟩
+
+theorem step_balancedFrom (base : Int) (cli : Bool) (s s' : Ck) (i : Item) (h : step base cli s i = some s')
+    {rest : List Item} {stk' : List Name}
+    (hr : BalancedFrom (s'.stack.map Frame.n) (evs rest) stk') :
+    BalancedFrom (s.stack.map Frame.n) (evs (i :: rest)) stk' := by
+  obtain ⟨stack, pending, roots, failed⟩ := s
+  cases i with
+  | begin n =>
+    have he : evs (.begin n :: rest) = .begin n :: evs rest := by simp [evs]
+    rw [he]
+    simp only [step, stepBegin] at h
+    split at h
+    · cases h
+    · cases stack with
+      | nil =>
+        simp only at h
+        split at h
+        · cases h
+        · cases h; exact BalancedFrom.push n hr
+      | cons f fs =>
+        simp only at h
+        split at h
+        · cases h; exact BalancedFrom.push n hr
+        · cases h
+  | end_ n a b =>
+    have he : evs (.end_ n a b :: rest) = .end_ n a b :: evs rest := by simp [evs]
+    rw [he]
+    simp only [step, stepEnd] at h
+    cases stack with
+    | nil => cases h
+    | cons f fs =>
+      simp only at h
+      cases hh : f.how with
+      | none => rw [hh] at h; cases h
+      | some x =>
+        rw [hh] at h
+        simp only at h
+        split at h
+        · rename_i hc
+          have hn : f.n = n := by
+            rw [Bool.and_eq_true] at hc
+            exact beq_iff_eq.1 hc.1
+          split at h <;> (cases h; simp only [List.map_cons, hn]; exact BalancedFrom.pop n a b hr)
+        · cases h
+  | enter n d =>
+    have he : evs (.enter n d :: rest) = evs rest := by simp [evs]
+    rw [he]
+    simp only [step, stepEnter] at h
+    cases stack with
+    | nil => cases h
+    | cons f fs =>
+      simp only at h
+      split at h
+      · cases h; simpa using hr
+      · cases h
+  | body n x =>
+    have he : evs (.body n x :: rest) = evs rest := by simp [evs]
+    rw [he]
+    simp only [step, stepBody] at h
+    cases stack with
+    | nil => cases h
+    | cons f fs =>
+      simp only at h
+      split at h
+      · cases h; simpa using hr
+      · cases h
+  | ret n r =>
+    have he : evs (.ret n r :: rest) = evs rest := by simp [evs]
+    rw [he]
+    simp only [step, stepRet] at h
+    cases pending with
+    | none => cases h
+    | some mh =>
+      obtain ⟨m, x⟩ := mh
+      simp only at h
+      split at h
+      · cases h; exact hr
+      · cases h
+  | excev e => cases h
+  | tbotEnd b => cases h
+
+theorem feed_balancedFrom (base : Int) (cli : Bool) : ∀ (items : List Item) (s s' : Ck),
+    feed base cli s items = some s' →
+    BalancedFrom (s.stack.map Frame.n) (evs items) (s'.stack.map Frame.n)
+  | [], s, s', h => by
+    simp only [feed, Option.some.injEq] at h
+    subst h
+    exact BalancedFrom.nil _
+  | i :: is, s, s', h => by
+    rw [feed_cons] at h
+    cases hs : step base cli s i with
+    | none => rw [hs] at h; cases h
+    | some s1 =>
+      rw [hs] at h
+      exact step_balancedFrom base cli s s1 i hs (feed_balancedFrom base cli is s1 s' h)
+
+/-- **Soundness of the Spec's reader.**  Any observation the Spec accepts — in particular every
+    observation of the real tbot that passes the check — has properly nested testcase begin/end
+    events with matching names, and `NESTING` back at the starting level. -/
+theorem spec_accepts_only_balanced (c : Case) (o : Obs) (h : Spec.C16 c o = true) :
+    Balanced (evs o.items) ∧ o.nest = c.base := by
+  unfold Spec.C16 at h
+  simp only at h
+  cases hf : feed c.base (c.mode != Mode.ip) Ck.init (List.takeWhile Item.isTc o.items) with
+  | none => rw [hf] at h; cases h
+  | some s =>
+    rw [hf] at h
+    simp only [Bool.and_eq_true] at h
+    obtain ⟨⟨⟨⟨hstack, _⟩, hnest⟩, _⟩, hmode⟩ := h
+    have hb := feed_balancedFrom _ _ _ _ _ hf
+    have hs : s.stack = [] := List.isEmpty_iff.1 hstack
+    rw [hs] at hb
+    have hbal : Balanced (evs (List.takeWhile Item.isTc o.items)) :=
+      closes_of_balancedFrom hb rfl
+    have htail : evs (List.dropWhile Item.isTc o.items) = [] := by
+      cases hm : c.mode with
+      | ip =>
+        rw [hm] at hmode
+        simp only [Bool.and_eq_true, beq_iff_eq] at hmode
+        rw [hmode.1]; rfl
+      | newbot =>
+        rw [hm] at hmode
+        simp only at hmode
+        cases hfa : s.failed with
+        | none =>
+          rw [hfa] at hmode
+          simp only [Bool.and_eq_true, beq_iff_eq] at hmode
+          rw [hmode.1.1]; rfl
+        | some e =>
+          rw [hfa] at hmode
+          simp only [Bool.and_eq_true, beq_iff_eq] at hmode
+          rw [hmode.1]; rfl
+      | legacy =>
+        rw [hm] at hmode
+        simp only at hmode
+        cases hfa : s.failed with
+        | none =>
+          rw [hfa] at hmode
+          simp only [Bool.and_eq_true, beq_iff_eq] at hmode
+          rw [hmode.1.1]; rfl
+        | some e =>
+          rw [hfa] at hmode
+          simp only [Bool.and_eq_true, beq_iff_eq] at hmode
+          rw [hmode.1]; rfl
+    refine ⟨?_, by simpa using hnest⟩
+    have : o.items = List.takeWhile Item.isTc o.items ++ List.dropWhile Item.isTc o.items :=
+      (List.takeWhile_append_dropWhile).symm
+    rw [this, evs_append, htail, List.append_nil]
+    exact hbal
+
 /-! ## Non-vacuity: the hypotheses are satisfiable, the Spec is not trivially true -/
 
 /-- `d1` calls the block `w2` inside `except Exception` (`w2` calls `m3`, which is interrupted) and
